@@ -6,6 +6,8 @@ import PyYetiVerif.Props.C10Psd
 import PyYetiVerif.Props.C10Locate
 import PyYetiVerif.Props.C10Cell
 import PyYetiVerif.Props.C10Dups
+import PyYetiVerif.Props.C10Totals
+import PyYetiVerif.Props.C10G2Inf
 #print axioms PyYetiVerif.C10.seq_first_selected
 #print axioms PyYetiVerif.C10.seq_alternates
 #print axioms PyYetiVerif.C10.default_first_selected
@@ -78,3 +80,12 @@ import PyYetiVerif.Props.C10Dups
 #print axioms PyYetiVerif.C10.find_duplicates_neg_tol
 #print axioms PyYetiVerif.C10.find_duplicates_example
 #print axioms PyYetiVerif.C10.find_duplicates_iff
+#print axioms PyYetiVerif.C10.one_axis_partition
+#print axioms PyYetiVerif.C10.binify_total_from_cells
+#print axioms PyYetiVerif.C10.table_sum_eq_cells
+#print axioms PyYetiVerif.C10.binify_conserves_2d_from_cells
+#print axioms PyYetiVerif.C10.binify_uncovered_in_no_cell
+#print axioms PyYetiVerif.C10.G2_ge_G1_loop_full
+#print axioms PyYetiVerif.C10.g2maxX_eq_g2max_of_lt
+#print axioms PyYetiVerif.C10.g2maxX_inf_example
+#print axioms PyYetiVerif.C10.find_duplicates_monotone_tol
